@@ -169,4 +169,8 @@ Code(f, m) == LET S[i \in 0..m] == IF i = 0 THEN 0 ELSE S[i - 1] * 5 + f[i] IN S
 GenHash == 31 * Code(a, n) + 17 * Code(perm, n) + 7 * Code([i \in 1..n |-> IF tgt[i] THEN 1 ELSE 0], n) + thr[1] + 3 * thr[2]
 GenKeep == (GenMod > 1 /\ pc = "start") => GenHash % GenMod = 0
 EmitCase == pc \in {"done", "abort"} => PrintT(<<"CASE", n, tgt, a, thr, shuffle, perm, it, pc, pred>>)
+\* ---- liveness (checked by ModelFit_live.cfg): under weak fairness of the next-state action every behaviour comes to rest
+\* in a state without successor -- the modelled procedure terminates for every input, schedule and fault inside the bounds
+FairSpec == Spec /\ WF_vars(Next)
+Halts == <>[](~ENABLED Next)
 =============================================================================
